@@ -378,6 +378,8 @@ def install(driver_mod):
     def havoc_value(self, old, name, node=None):
         if isinstance(old, SMat):
             return SMat(old.rows, old.cols, z3.Const(fresh(name), MAT_SORT))
+        if type(old).__name__ == "SStr":
+            return SOpaque("str")      # text assembled in a loop: nothing is known about its content afterwards
         return old_havoc_value(self, old, name, node)
 
     PathCtx.havoc_object, PathCtx.clone_value, PathCtx.havoc_value = havoc_object, clone_value, havoc_value
